@@ -179,7 +179,7 @@ def build(spec, pres=None, interp=True, weights_transform=None, dtype=None, requ
                     w = w.to(dt)
                 w = w.clone()
             if requires_grad:
-                w.requires_grad_()
+                (w.physical if hasattr(w, 'physical') else w).requires_grad_()
             B.weights[n] = w
             g.add_factor(labels[n], F.FiniteFactor([doms[x] for x in t['type']], w))
     if pres.get('via') == 'json':
